@@ -552,6 +552,10 @@ func (c *checker) eval(st *stats, space, text string, gen []genTok) {
 	st.perSpace[space]++
 	outcome, ref, impl := judge(text)
 	st.outcomes[outcome]++
+	if (fnv(text)^uint64(c.run.Seed))%100003 == 7 {
+		// evidence sample chosen by the seed (findings caps the number kept per kind)
+		c.run.Sample(map[string]string{"kind": space, "input": fmt.Sprintf("%q", text), "outcome": outcome, "reference": renderRef(ref), "implementation": renderImpl(impl)})
+	}
 	if strings.HasPrefix(outcome, "skip:") {
 		return
 	}
@@ -791,7 +795,7 @@ func Run() int {
 	r.Set("columns", "byte columns, 1-based; CRLF is one line end")
 	for _, s := range sampleInputs(thorough) {
 		o, ref, impl := judge(s.text)
-		r.Sample(map[string]string{"kind": s.kind, "input": fmt.Sprintf("%q", s.text), "outcome": o, "reference": renderRef(ref), "implementation": renderImpl(impl)})
+		r.Sample(map[string]string{"kind": "fixed-" + s.kind, "input": fmt.Sprintf("%q", s.text), "outcome": o, "reference": renderRef(ref), "implementation": renderImpl(impl)})
 	}
 	if len(t.outcomes) < 3 || t.outcomes[agreeTokens] == 0 || t.outcomes[agreeError] == 0 {
 		r.Assumef("WARNING vacuity: outcomes %v", t.outcomes)
